@@ -100,6 +100,16 @@ CLAIMED = {
             'Trusted: own interpreter/evaluators, z3 for the universal hypothesis of loop VCs (unknown => undecided), kernel checker. '
             'Two integer variables, grid -2..3, loop unrolling <=60.',
             'DESIGN.md §3 C20'),
+    'C05': ('exploration',
+            'bounded exhaustive enumeration of ground arithmetic goals x all level-0 arithmetic macros through the real checker, exact-arithmetic oracle',
+            'Every ground expression with <=2 operators over adversarial numerals (huge, near-equal, non-normal fractions, zero divisors) '
+            'at nat, int and real, compared by every relation with the exact value, value+1, the value under the other type\'s semantics '
+            'and 0, is offered to every level-0 arithmetic macro in a one-step check_proof; every accepted sequent is evaluated exactly '
+            '(truncated subtraction, x/0=0, Fractions). real_norm is additionally run on polynomial identities with real and nat '
+            'variables (grid refutation), const_inequality on goals with irrational constants (sympy zero-test / 50-digit sign).',
+            'Trusted: mc/numeric.py; sympy for irrational goals (undecided unless exact zero or |difference| > 1e-30). '
+            'Known open finding F-C05-3 (float comparison of irrational constants) is listed by exact goals.',
+            'DESIGN.md §3 C05'),
 }
 
 PENDING_REASON = 'check not built yet in this round (planned, see DESIGN.md §3/§7); not claimed until its machinery exists'
